@@ -579,6 +579,9 @@ def order_atoms(prefix, is_lhs, is_rhs):
         if t.k != "cmp" or t.a[0] not in ("==", "!=", "<", "<=", ">", ">="):
             return None
         op, l, r = t.a
+        # (a - b) <op> 0  is  a <op> b
+        if l.k == "bin" and l.a[0] == "-" and r.k == "const" and r.a[0] == 0 and len(l.a) >= 3:
+            l, r = l.a[1], l.a[2]
         if is_lhs(l) and is_rhs(r):
             pass
         elif is_lhs(r) and is_rhs(l):
